@@ -24,29 +24,6 @@ Proof.
   symmetry. apply N.add_nocarry_lxor. rewrite N.land_comm. apply land_shiftl_small; assumption.
 Qed.
 
-(* x < 2^n as a statement about bits *)
-Lemma lt_pow2_bits x n : x < 2 ^ n <-> (forall m, n <= m -> N.testbit x m = false).
-Proof.
-  split.
-  - intros H m Hm. destruct (N.eq_dec x 0) as [->|Hx]; [apply N.bits_0|].
-    apply N.bits_above_log2. apply N.log2_lt_pow2 in H; lia.
-  - intros H. destruct (N.eq_dec x 0) as [->|Hx].
-    + apply N.neq_0_lt_0. apply N.pow_nonzero. discriminate.
-    + apply N.log2_lt_pow2; [lia|].
-      destruct (N.lt_ge_cases (N.log2 x) n) as [Hl|Hl]; [assumption|].
-      specialize (H (N.log2 x) Hl). rewrite N.bit_log2 in H by assumption. discriminate.
-Qed.
-
-Lemma lxor_lt_pow2 a b n : a < 2 ^ n -> b < 2 ^ n -> N.lxor a b < 2 ^ n.
-Proof.
-  rewrite !lt_pow2_bits. intros Ha Hb m Hm. rewrite N.lxor_spec, Ha, Hb by assumption. reflexivity.
-Qed.
-
-Lemma shiftr_lt_pow2 a n k : a < 2 ^ n -> N.shiftr a k < 2 ^ n.
-Proof.
-  rewrite !lt_pow2_bits. intros Ha m Hm. rewrite N.shiftr_spec'. apply Ha. lia.
-Qed.
-
 (* ---------------------------------------------------------------------------------- *)
 (* the CRC register never leaves 32 bits *)
 
